@@ -5,6 +5,7 @@ go 1.21
 require (
 	github.com/ryogrid/SamehadaDB/lib v0.0.0
 	github.com/ryogrid/bltree-go-for-embedding v1.0.11
+	github.com/spaolacci/murmur3 v1.1.0
 )
 
 require (
@@ -24,7 +25,6 @@ require (
 	github.com/remyoudompheng/bigfft v0.0.0-20190728182440-6a916e37a237 // indirect
 	github.com/shirou/gopsutil v2.19.10+incompatible // indirect
 	github.com/sirupsen/logrus v1.6.0 // indirect
-	github.com/spaolacci/murmur3 v1.1.0 // indirect
 	go.uber.org/atomic v1.6.0 // indirect
 	go.uber.org/multierr v1.5.0 // indirect
 	go.uber.org/zap v1.15.0 // indirect
